@@ -137,6 +137,8 @@ type doc struct {
 	Body      []byte   `json:"-"`
 	BodyLen   int      `json:"body_len"`
 	TextStart int      `json:"text_start"` // offset of the first text byte (after the declaration)
+	Want      [][]byte `json:"-"`          // label cells: the permitted bodies when auto-decode is active (computed by the generator from x/text htmlindex)
+	WantLabel string   `json:"want_label,omitempty"`
 }
 
 func metaTag(s site, cs string, r *hk.Rand) string {
